@@ -338,3 +338,18 @@ def run(ctx):
         b = astq.kwarg(c2, "block")
         ok = b is not None and isinstance(b, ast.Constant) and b.value is False
         ctx.ob(R7, fi2.qual, f"`{astq.text(c2)}` never blocks (a full queue discards instead of deadlocking)", ok, node=c2)
+
+    # ------------------------------------------------------------------ R8 the response-side half of the lease (shared with C01)
+    R8 = ctx.rule("C02-R8", "no lost slot on the response side (shared with C01): a response gives its connection back at most once (C01-R4), an unclean body read closes response and connection and returns the slot exactly once (C01-R6), and every disposal path - read to EOF, drain_conn, release_conn - reaches the give (C01-R7); a slot lost here blocks every later request of a block=True pool", "E4 (shared with C01)")
+    from .c01_more import run as _c01more
+
+    before = len(ctx.obs)
+    rules_before = dict(ctx.rules)
+    _c01more(ctx)
+    keep_rules = ("C01-R4", "C01-R6", "C01-R7")
+    ctx.obs[before:] = [o for o in ctx.obs[before:] if o.rule in keep_rules]
+    for r in list(ctx.rules):
+        if r.startswith("C01-") and r not in keep_rules and r not in rules_before:
+            ctx.rules.pop(r)
+    bad = [o for o in ctx.obs[before:] if not o.ok]
+    ctx.ob(R8, "urllib3.response.HTTPResponse", f"{len(ctx.obs) - before} shared obligations (C01-R4, C01-R6, C01-R7)", True)
